@@ -6,7 +6,7 @@
 //! reference (leftovers classified structurally by where they sit), page-tree Counts.
 use crate::codec::*;
 use crate::ctx::{guard, Ctx};
-use crate::props::c10::{self, collect_refs, gen_doc, gen_obj, oracle_pages, reachable, show_doc, through_file, Dangling, Opts, RefPool};
+use crate::props::c10::{self, add_deep_refs, add_stale_refs, collect_refs, gen_doc, gen_obj, oracle_pages, reachable, show_doc, through_file, Dangling, Opts, RefPool};
 use crate::rng::Rng;
 use lopdf::{Dictionary, Document, Object, ObjectId};
 use serde_json::json;
@@ -545,7 +545,6 @@ fn gen_op(r: &mut Rng, doc: &Document, safe_only: bool) -> Option<Op> {
         13 | 14 => {
             if ids.is_empty() { return None; }
             let page = if !pages.is_empty() && r.chance(7, 8) { *r.pick(&pages) } else { *r.pick(&ids) };
-            if safe_only { if let Some((eb, own)) = effective_resources(doc, page) { if !own && !eb.is_empty() { return None; } } }
             let name = r.pick(&res_names).to_vec(); let x = *r.pick(&ids);
             if r.chance(1, 2) { Op::AddXObj(page, name, x) } else { Op::AddGs(page, name, x) }
         }
@@ -559,6 +558,32 @@ fn gen_op(r: &mut Rng, doc: &Document, safe_only: bool) -> Option<Op> {
         }
         18 => Op::Compress,
         _ => Op::Decompress,
+    })
+}
+
+/// the calls the hard documents are made for: prune / renumber / delete (of an object some reference names) on
+/// deep and stale-generation documents, add_xobject / add_graphics_state on a page for inherited resources
+fn gen_op_focused(r: &mut Rng, doc: &Document, kind: u64) -> Option<Op> {
+    let ids: Vec<ObjectId> = doc.objects.keys().cloned().collect();
+    if ids.is_empty() { return None; }
+    if kind == 2 {
+        let pages = oracle_pages(doc);
+        if pages.is_empty() { return None; }
+        let page = *r.pick(&pages); let x = *r.pick(&ids);
+        let name = r.pick(&[&b"Im1"[..], b"X", b"GS0", b"F1"]).to_vec();
+        return Some(if r.chance(1, 2) { Op::AddXObj(page, name, x) } else { Op::AddGs(page, name, x) });
+    }
+    Some(match r.below(4) {
+        0 | 1 => Op::Prune,
+        2 => { let hi = max_num(doc); Op::Renum(match r.below(3) { 0 => 1, 1 => 1 + r.below(hi.max(1) as u64) as u32, _ => hi + 1 + r.below(10) as u32 }) }
+        _ => {
+            // an object that is the target of a deeply nested reference, when there is one and deleting it leaves nothing behind
+            let deep: Vec<ObjectId> = doc.objects.iter().filter(|(_, o)| matches!(o, Object::Dictionary(d) if d.has(b"DeepTarget"))).map(|(k, _)| *k).collect();
+            let pool = if !deep.is_empty() { deep } else { ids };
+            let s: Vec<ObjectId> = pool.iter().filter(|i| predict_leftovers(doc, **i).count == 0).cloned().collect();
+            if s.is_empty() { return None; }
+            Op::Del(*r.pick(&s))
+        }
     })
 }
 
@@ -591,16 +616,58 @@ fn decorate_resources(r: &mut Rng, doc: &mut Document, leaves: &[ObjectId]) {
     }
 }
 
+/// resources that are inherited over two and more levels: no page and no Pages node has a `Resources` entry
+/// except ONE node high up (the root, or a node that has Pages nodes below it)
+fn decorate_resources_high(r: &mut Rng, doc: &mut Document, leaves: &[ObjectId]) {
+    let ids: Vec<ObjectId> = doc.objects.keys().cloned().collect();
+    let nodes: Vec<ObjectId> = doc.objects.iter().filter(|(_, o)| matches!(o, Object::Dictionary(d) if d.has_type(b"Pages"))).map(|(k, _)| *k).collect();
+    let inner: Vec<ObjectId> = nodes.iter().filter(|n| match doc.objects.get(n) { Some(Object::Dictionary(d)) => match d.get(b"Kids") {
+        Ok(Object::Array(ks)) => ks.iter().any(|k| matches!(k, Object::Reference(x) if nodes.contains(x))), _ => false }, _ => false }).cloned().collect();
+    for id in nodes.iter().chain(leaves.iter()) { if let Some(Object::Dictionary(d)) = doc.objects.get_mut(id) { d.remove(b"Resources"); } }
+    if inner.is_empty() { return; }
+    let holder = *r.pick(&inner);
+    let mut res = Dictionary::new();
+    for cat in [&b"Font"[..], b"XObject", b"ExtGState", b"ColorSpace"] {
+        if cat == b"Font" || r.chance(1, 2) {
+            let mut d = Dictionary::new();
+            for n in [&b"F1"[..], b"Im1", b"GS0"].iter().take(1 + r.usize(3)) { d.set(n.to_vec(), Object::Reference(*r.pick(&ids))); }
+            res.set(cat.to_vec(), Object::Dictionary(d));
+        }
+    }
+    let v = if r.chance(1, 3) { Object::Reference(doc.add_object(Object::Dictionary(res))) } else { Object::Dictionary(res) };
+    if let Some(Object::Dictionary(d)) = doc.objects.get_mut(&holder) { d.set("Resources", v); }
+}
+
+/// how many Pages nodes lie between the page and the nearest ancestor that carries `Resources` (None: none does)
+fn inherit_distance(doc: &Document, page: ObjectId) -> Option<usize> {
+    let mut cur = page;
+    for k in 0..60 {
+        let d = match doc.objects.get(&cur) { Some(Object::Dictionary(d)) => d, _ => return None };
+        if d.has(b"Resources") { return Some(k); }
+        match d.get(b"Parent") { Ok(Object::Reference(p)) => cur = *p, _ => return None }
+    }
+    None
+}
+
 fn run_program(c: &mut Ctx, r: &mut Rng, stream: &str, safe_only: bool, max_len: usize) {
-    let o = Opts { pages_in_id_order: r.chance(1, 2), bookmarks: false, dangling: if r.chance(1, 3) { Dangling::Safe } else { Dangling::None }, malformed: false, max_other: 8 };
-    let g = gen_doc(r, &o);
+    let hard = stream == "programs_hard";
+    let o = Opts { pages_in_id_order: r.chance(1, 2), bookmarks: false, dangling: if r.chance(1, 3) { Dangling::Safe } else { Dangling::None }, malformed: false, max_other: 8, deep_tree: hard };
+    let mut g = gen_doc(r, &o);
+    // hard: references nested up to 128 deep that are the only way to their target; references with a generation
+    // the stored object does not have; resources inherited from two and more levels up
+    let kind = if hard { r.below(3) } else { 9 };
+    if kind == 0 { for d in add_deep_refs(r, &mut g) { c.count(if d >= 126 { "deep_ref_depth_ge_126" } else { "deep_ref_depth_lt_126" }); } }
+    if kind == 1 { let n = add_stale_refs(r, &mut g); c.count_n("stale_generation_refs", n as u64); }
     let mut doc = g.doc;
-    if r.chance(2, 3) { decorate_resources(r, &mut doc, &g.leaves); }
+    if kind == 2 { decorate_resources_high(r, &mut doc, &g.leaves); }
+    else if r.chance(2, 3) { decorate_resources(r, &mut doc, &g.leaves); }
     if r.chance(1, 4) { if let Some(l) = through_file(&doc) { doc = l; c.count("loaded_from_generated_file"); } }
     let len = 1 + r.usize(max_len);
     let mut key = String::new();
     for step in 0..len {
-        let Some(op) = gen_op(r, &doc, safe_only) else { c.count("op_skipped"); continue };
+        let focused = if hard && r.chance(1, 2) { gen_op_focused(r, &doc, kind) } else { None };
+        let Some(op) = focused.or_else(|| gen_op(r, &doc, safe_only)) else { c.count("op_skipped"); continue };
+        if let Op::AddXObj(p, ..) | Op::AddGs(p, ..) = &op { if let Some(k) = inherit_distance(&doc, *p) { c.count(&format!("add_resource_inherit_distance_{}", k.min(3))); } }
         let before = doc.clone();
         let text = op_text(&op, &before);
         let req = format!("step {} {}", text, show_doc(&before));
@@ -627,12 +694,17 @@ fn run_program(c: &mut Ctx, r: &mut Rng, stream: &str, safe_only: bool, max_len:
 pub fn run(c: &mut Ctx) {
     c.rule = "random programs (length <= 12 quick, <= 40 thorough) of new_object_id / add_object / set_object / delete_object / prune_objects / \
 delete_zero_length_streams / renumber_objects_with / delete_pages / add_page_contents with random arguments on random documents (C10's generator, 1 in 4 \
-saved and re-loaded); every step compared with the Lean `step` from the real pre-state and checked by the oracle. Non-trivial = a program that ran; distinct by program text + final document.".into();
+saved and re-loaded); every step compared with the Lean `step` from the real pre-state and checked by the oracle. Stream programs_hard: page trees up to 5 levels and one of (a) references inside 1..128 nested containers that are the only way to their target, (b) references whose generation the stored object does not have (mostly naming unreachable objects), (c) Resources on one high Pages node only (inherited over two and more levels), with half of the calls drawn from prune / renumber / delete resp. add_xobject / add_graphics_state. Non-trivial = a program that ran; distinct by program text + final document.".into();
     witnesses(c);
     let max_len = if c.quick() { 12 } else { 40 };
     for i in 0..c.n(3000, 25000) {
         let Some(mut r) = c.case("programs", i) else { continue };
         run_program(c, &mut r, "programs", true, max_len);
+    }
+    // references nested up to 128 deep, stale generations, resources inherited over several levels; page trees up to 5 levels
+    for i in 0..c.n(700, 6000) {
+        let Some(mut r) = c.case("programs_hard", i) else { continue };
+        run_program(c, &mut r, "programs_hard", true, max_len.min(8));
     }
     // known-finding territory: arbitrary deletion targets
     for i in 0..c.n(600, 5000) {
